@@ -220,7 +220,7 @@ PRESENTABLE = ("default_in_one_only", "different_defaults", "strict_incompatible
 
 
 def _present(nodes, mode):
-    return gen.present(nodes, mode, warm=False)
+    return gen.present(nodes, mode, warm=True)
 
 
 def _construct(ctx, nodes, *, name=None, edges=None, strict=False, nested=False, via_add_nodes=False, present=None):
